@@ -6,6 +6,7 @@ package rules
 import (
 	"fmt"
 	"go/constant"
+	"go/token"
 	"go/types"
 
 	"golang.org/x/tools/go/ssa"
@@ -167,6 +168,66 @@ func spdyErrClass(v ssa.Value, reader ssa.Value) (class, code string) {
 	return
 }
 
+// spdyErrLeaf is one way the error value of a return can come about.
+type spdyErrLeaf struct{ class, code string }
+
+// spdyErrLeaves classifies the error value v of a return of a block parser.
+// When v is the error result of a bfe_spdy function with a body that was handed
+// the block reader (the read-and-check sequence of one field extracted into a
+// helper), every return of that helper is classified in the helper's own frame
+// (its reader parameter taking the place of reader) and yields one leaf - the
+// helper's body stands where its call stands. nonNil says that the caller has
+// established v != nil at the return: nil results of the helper are then not
+// among the values returned. Everything else yields the single leaf of
+// spdyErrClass.
+func spdyErrLeaves(v, reader ssa.Value, nonNil bool, depth int) []spdyErrLeaf {
+	if depth < 3 {
+		idx := 0
+		cv := v
+		if ex, ok := v.(*ssa.Extract); ok {
+			idx, cv = ex.Index, ex.Tuple
+		}
+		if call, ok := cv.(*ssa.Call); ok {
+			h := call.Call.StaticCallee()
+			if h != nil && h.Blocks != nil && core.FuncPkgRel(h) == spdyPkg && !call.Call.IsInvoke() {
+				var rp ssa.Value
+				for j, a := range call.Call.Args {
+					if j < len(h.Params) && spdyCallGets(&ssa.CallCommon{Args: []ssa.Value{a}}, reader) {
+						rp = h.Params[j]
+					}
+				}
+				if rp != nil {
+					var out []spdyErrLeaf
+					for _, r := range core.Returns(h) {
+						rv := core.RetVals(r)
+						if idx >= len(rv) {
+							out = append(out, spdyErrLeaf{"unknown", ""})
+							continue
+						}
+						ev := rv[idx]
+						if spdyIsNil(ev) {
+							if !nonNil {
+								out = append(out, spdyErrLeaf{"success", ""})
+							}
+							continue
+						}
+						inner := spdyHasGuard(r.Block(), func(g core.Guard) bool {
+							c, ok := spdyNorm(g.Cond, g.Pol, func(x ssa.Value) bool { return x == ev })
+							return ok && c.Op == token.NEQ && spdyIsNil(c.Other)
+						})
+						out = append(out, spdyErrLeaves(ev, rp, inner, depth+1)...)
+					}
+					if len(out) > 0 {
+						return out
+					}
+				}
+			}
+		}
+	}
+	class, code := spdyErrClass(v, reader)
+	return []spdyErrLeaf{{class, code}}
+}
+
 // spdyCallGets: the call is made on v (interface receiver) or passes v as an argument.
 func spdyCallGets(cc *ssa.CallCommon, v ssa.Value) bool {
 	if v == nil {
@@ -298,34 +359,41 @@ func c39BlockConsumed(c *core.Ctx) {
 		if len(rv) == 0 {
 			continue
 		}
-		class, code := spdyErrClass(rv[len(rv)-1], reader)
+		ev := rv[len(rv)-1]
 		if !early[r.Block()] {
 			complete++
-			if class == "success" && spdyIsNil(rv[len(rv)-1]) {
+			if class, _ := spdyErrClass(ev, reader); class == "success" && spdyIsNil(ev) {
 				completeOK++
 			}
 			continue
 		}
-		name := class
-		switch class {
-		case "stream":
-			name = spdyCodeName(c, code)
-		case "conn":
-			name = "conn:" + spdyCodeName(c, code)
+		nonNil := spdyHasGuard(r.Block(), func(g core.Guard) bool {
+			c, ok := spdyNorm(g.Cond, g.Pol, func(x ssa.Value) bool { return x == ev })
+			return ok && c.Op == token.NEQ && spdyIsNil(c.Other)
+		})
+		for _, leaf := range spdyErrLeaves(ev, reader, nonNil, 0) {
+			class, code := leaf.class, leaf.code
+			name := class
+			switch class {
+			case "stream":
+				name = spdyCodeName(c, code)
+			case "conn":
+				name = "conn:" + spdyCodeName(c, code)
+			}
+			ord[name]++
+			key := fmt.Sprintf("parseHeaderValueBlock:early:%s#%d", name, ord[name])
+			var why string
+			switch class {
+			case "stream":
+				why = "it reports the stream-level error *Error{" + spdyCodeName(c, code) + ", streamId}: the error blames one stream, yet the rest of this frame's block is still inside the connection-wide zlib decompressor and is parsed as the beginning of the NEXT frame's header block (next SYN_STREAM/SYN_REPLY/HEADERS on the connection fails with WrongCompressedPayloadSize or yields garbage headers). Record the error and keep consuming, as is done for the errors returned after the loop"
+			case "success":
+				why = "it reports success (nil error, possibly through a phi): a block is accepted although its announced pairs were not all consumed"
+			case "unknown":
+				why = "its error value (" + core.Render(ev) + ") cannot be classified as connection-fatal (reader error, untyped error, *Error without stream id)"
+			}
+			c.Check(rule, key, r.Pos(), why == "",
+				"parseHeaderValueBlock returns before the loop over the announced header pairs has run to its end, and "+why)
 		}
-		ord[name]++
-		key := fmt.Sprintf("parseHeaderValueBlock:early:%s#%d", name, ord[name])
-		var why string
-		switch class {
-		case "stream":
-			why = "it reports the stream-level error *Error{" + spdyCodeName(c, code) + ", streamId}: the error blames one stream, yet the rest of this frame's block is still inside the connection-wide zlib decompressor and is parsed as the beginning of the NEXT frame's header block (next SYN_STREAM/SYN_REPLY/HEADERS on the connection fails with WrongCompressedPayloadSize or yields garbage headers). Record the error and keep consuming, as is done for the errors returned after the loop"
-		case "success":
-			why = "it reports success (nil error, possibly through a phi): a block is accepted although its announced pairs were not all consumed"
-		case "unknown":
-			why = "its error value (" + core.Render(rv[len(rv)-1]) + ") cannot be classified as connection-fatal (reader error, untyped error, *Error without stream id)"
-		}
-		c.Check(rule, key, r.Pos(), why == "",
-			"parseHeaderValueBlock returns before the loop over the announced header pairs has run to its end, and "+why)
 	}
 	c.Check(rule, "parseHeaderValueBlock:complete", fn.Pos(), complete > 0 && completeOK > 0,
 		fmt.Sprintf("no success return lies behind the exhaustion exit of the pair loop (%d returns behind it, %d of them success)", complete, completeOK))
